@@ -229,9 +229,16 @@ def _short(x):
         return "<unprintable>"
 
 
-def replay_subprocess(modname, cname, case, values, timeout=120):
+def bounded_subprocess(modname, cname, case, samples, seed=0, timeout=600):
+    return replay_subprocess(modname, cname, case, None, timeout=timeout,
+                             extra={"mode": "bounded", "samples": samples, "seed": seed})
+
+
+def replay_subprocess(modname, cname, case, values, timeout=120, extra=None):
     """replay one counter-model against the real code; returns dict"""
-    spec = json.dumps({"module": modname, "contract": cname, "case": case, "values": values})
+    d = {"module": modname, "contract": cname, "case": case, "values": values}
+    d.update(extra or {})
+    spec = json.dumps(d)
     env = dict(os.environ)
     env["PYTHONPATH"] = REPO + os.pathsep + VERIF
     env["PYTHONHASHSEED"] = "0"
